@@ -329,5 +329,7 @@ _add386("C09", ["rapid"])
 _add386("C08", ["rapid", "regress"])  # the JSON-build co-process is built for the same GOARCH
 _add386("C04", None, rapid_div=1)
 _add386("C07", ["json"])
-for _p in ("C01", "C03", "C05", "C14", "C15", "C16", "C17", "C18", "C19"):
+_add386("C17", ["structured", "mutations"], rapid_div=6)  # lengths with bit 31 set meet a 32-bit int
+_add386("C17", ["headers", "cuts", "concurrent"], thorough_only=True)
+for _p in ("C01", "C03", "C05", "C14", "C15", "C16", "C18", "C19"):
     _add386(_p, None, thorough_only=True)
